@@ -79,6 +79,25 @@ func (a *Analysis) classifyErr(v ssa.Value) errClass {
 				return errClass{Kind: "fresh", Call: x, Desc: fnKey(f) + "(…) = errors.New(…)"}
 			}
 		}
+		// a module helper whose every return is nil or one and the same sentinel (possibly wrapped):
+		// where its result is known to be non-nil it is that sentinel
+		if f := x.Call.StaticCallee(); f != nil && f.Pkg != nil && a.P.InModule(f.Pkg) && len(f.Blocks) > 0 && f.Signature.Results().Len() == 1 && !a.touchesPackageStateExceptLoads(f) {
+			var g *ssa.Global
+			same := true
+			for _, ret := range returnsOf(f) {
+				c := a.classifyErr(returnedValue(ret, 0))
+				switch {
+				case c.Kind == "nil":
+				case (c.Kind == "sentinel" || c.Kind == "wrap") && (g == nil || g == c.G):
+					g = c.G
+				default:
+					same = false
+				}
+			}
+			if same && g != nil {
+				return errClass{Kind: "wrap", G: g, Call: x, Desc: fmt.Sprintf("%s(…), which returns nil or %s", fnKey(f), g.Name())}
+			}
+		}
 		return errClass{Kind: "call", Call: x, Desc: "result of " + calleeName(x)}
 	case *ssa.Extract:
 		if c, ok := x.Tuple.(*ssa.Call); ok {
@@ -199,6 +218,7 @@ type gateSpec struct {
 	allowLateFail bool
 	strResult     bool   // first result is a string that must be "" on reject exits
 	kind          string // context kind of the subject: "L", "W" or "N"
+	entry         *ssa.Function // function to evaluate for feasibility questions (default fn)
 }
 
 func (a *Analysis) ruleGates() {
@@ -274,19 +294,39 @@ func (a *Analysis) ruleGates() {
 					subj[c.Value()] = true
 				}
 			}
+			gateFn, defBlock := a.CM, tok.Block()
+			if len(subj) == 0 {
+				// the tokens are handed to a module function whose result is what CheckMnemonic
+				// returns (`return checkWords(strings.Split(m, " "), lg.mapping())`): the gate is
+				// looked for there, on len of the parameter that receives the tokens
+				if g, param := a.tailCallee(a.CM, tok); g != nil {
+					for _, c := range callsIn(g) {
+						if calleeName(c) == "len" && c.Common().Args[0] == ssa.Value(param) {
+							subj[c.Value()] = true
+						}
+					}
+					if len(subj) > 0 {
+						gateFn, defBlock = g, g.Blocks[0]
+						a.R.OK("G3", "CheckMnemonic/gate-function", a.P.Pos(g.Pos()), "", "the tokens are passed to %s, whose results CheckMnemonic returns unchanged: the count gate is analysed there (len(%s))", fnKey(g), param.Name())
+					}
+				}
+			}
 			lo := int64(0)
 			if calleeName(tok) == "strings.Split" {
 				lo = 1
 			}
-			res := AnalyseGate(a.CM, subj, tok.Block(), ZRange(lo, maxLen), bits, a.gateTables, a.isModuleFunc)
-			a.Gate3 = a.checkGate(gateSpec{rule: "G3", fn: a.CM, what: "len(tokens)", spec: specWordCounts(), sentinel: "ErrWordLen", allowLateFail: true, kind: "N"}, res)
+			res := AnalyseGate(gateFn, subj, defBlock, ZRange(lo, maxLen), bits, a.gateTables, a.isModuleFunc)
+			a.Gate3 = a.checkGate(gateSpec{rule: "G3", fn: gateFn, entry: a.CM, what: "len(tokens)", spec: specWordCounts(), sentinel: "ErrWordLen", allowLateFail: true, kind: "N"}, res)
 		}
 	}
 	n := 0
-	for _, g := range []*GateInfo{a.Gate1, a.Gate2, a.Gate3} {
+	for i, g := range []*GateInfo{a.Gate1, a.Gate2, a.Gate3} {
 		if g != nil {
 			n++
 			a.R.Counts["G.accepted"] += len(g.Accept)
+			// per-gate counts: a property's floor names only the gates its own argument uses
+			a.R.Counts[fmt.Sprintf("G%d.gate", i+1)] = 1
+			a.R.Counts[fmt.Sprintf("G%d.accepted", i+1)] = len(g.Accept)
 		}
 	}
 	a.R.Counts["G.gates"] = n
@@ -446,11 +486,69 @@ func (a *Analysis) checkGate(gs gateSpec, res *GateResult) *GateInfo {
 	return gi
 }
 
+// tailCallee: fn passes v as an argument to exactly one module function g, and every return of
+// fn that follows gives back exactly g's results.  Returns g and the parameter that receives v.
+func (a *Analysis) tailCallee(fn *ssa.Function, v ssa.Value) (*ssa.Function, *ssa.Parameter) {
+	var call *ssa.Call
+	var param *ssa.Parameter
+	for _, c := range callsIn(fn) {
+		cc, ok := c.(*ssa.Call)
+		if !ok {
+			continue
+		}
+		g := cc.Call.StaticCallee()
+		if g == nil || !a.isModuleFunc(g) || len(g.Blocks) == 0 || g.Parent() != nil || len(g.Params) != len(cc.Call.Args) {
+			continue
+		}
+		for i, arg := range cc.Call.Args {
+			if arg == v {
+				if call != nil {
+					return nil, nil
+				}
+				call, param = cc, g.Params[i]
+			}
+		}
+	}
+	if call == nil {
+		return nil, nil
+	}
+	g := call.Call.StaticCallee()
+	nres := g.Signature.Results().Len()
+	n := 0
+	for _, ret := range returnsOf(fn) {
+		if !(call.Block() == ret.Block() || call.Block().Dominates(ret.Block())) {
+			continue // an exit before the call (none may follow it without passing it: checked by domination)
+		}
+		n++
+		if len(ret.Results) != nres {
+			return nil, nil
+		}
+		for i := range ret.Results {
+			r := returnedValue(ret, i)
+			if nres == 1 && r == ssa.Value(call) {
+				continue
+			}
+			if ex, ok := r.(*ssa.Extract); ok && ex.Tuple == ssa.Value(call) && ex.Index == i {
+				continue
+			}
+			return nil, nil
+		}
+	}
+	if n == 0 {
+		return nil, nil
+	}
+	return g, param
+}
+
 // exitFeasible: some evaluation of the gate's function with the subject fixed to v reaches ret.
 func (a *Analysis) exitFeasible(gs gateSpec, v int64, ret *ssa.Return) bool {
 	for _, lc := range a.langCtxs() {
 		v := v
-		e := a.eval(gs.fn, a.sizeCtx(gs.kind, &v, nil, lc))
+		entry := gs.fn
+		if gs.entry != nil {
+			entry = gs.entry
+		}
+		e := a.eval(entry, a.sizeCtx(gs.kind, &v, nil, lc))
 		for _, x := range e.Exits {
 			if x.Ret == ret {
 				return true
